@@ -44,6 +44,10 @@ CLAIMED["C14"] = dict(engine="E1+E2", technique="modems: symbolic execution of t
     text="Per modem all 4^b label pairs are covered by one query per clause (distinct points, forward agrees with constellation/bit_patterns, nearest neighbours differ in one bit when Gray is requested); unit energy and table distinctness are ground facts in exact rational arithmetic. Gray utilities: round trips, injectivity, adjacency and rejection of negatives for every n < 2^60, scalar and array forms.",
     note="Gray clause uses d_min of the published table with a 1e-4 relative margin. E2 is validated on every run against the repository's own test literals and seeded random inputs; known findings: the 1023/1365 literals (asserted by the existing tests) and the DPSK / pi/4-QPSK Gray label mismatch.",
     ref="DESIGN.md §4 C14")
+CLAIMED["C12"] = dict(engine="E1", technique="symbolic execution of the real channels with the uniform draws stubbed to symbolic reals in [0,1) and a symbolic probability p in [0,1]; z3 (LRA + Bool) decides the per-position transition law, alphabet closure and input purity",
+    text="For all inputs of n symbols, all draws and all p: BSC y_i = x_i xor [u_i < p], Z channel never 0->1 and 1->0 iff its own draw < p, BEC erases iff u_i < p and leaves the rest untouched; outputs stay in the input's alphabet (+ erasure), p = 0 / p = 1 give the deterministic extremes, the input tensor is unchanged. Each output position is a function of its own input and its own draw only.",
+    note="The generator is trusted to deliver i.i.d. uniform draws; empirical rates on >= 10^6 draws are outside the claim. Z channel forks per input pattern (n <= 5).",
+    ref="DESIGN.md §4 C12")
 NOT_YET = {}
 
 PENDING_REASON = "check not built yet in this round (planned: see DESIGN.md §8); not claimed until its check exists"
